@@ -9,7 +9,7 @@ Requests
   layout_render   <flags> <env> <opts> <width> <tree>   ->  ok:<code points of the concatenated segment text>  | unmodelled
   layout_measure  <flags> <env> <width> <tree>          ->  m:<min>,<max>                                      | unmodelled
   layout_smin     <tree>                                ->  <n>                                                | unmodelled
-  layout_text_spec <text> <width>                       ->  <min>,<max>,<wrapped 0|1|E>   (Text.__rich_measure__ and "rendered at w, is any paragraph divided?")
+  layout_text_spec [<splitlines 0|1>] <flags> <text> <width>  ->  <min>,<max>,<wrapped 0|1|E>   (Text.__rich_measure__ and "rendered at w, is any paragraph divided?")
 
   flags = frames variant bitmask (as Drv/C08) , the Text/Wrap flags (as Drv/C02 `decWVariant?`) , the table flags (three to seven, by position)   e.g. `0,00000000,0000000` (all repaired: what the harness sends for /repo)
   env   = consoleWidth,ascii,legacy,safe,nocolor,colorsystem
@@ -286,6 +286,20 @@ def handlers : List (String × (List String → String)) := [
       let t ← C02.decText? text
       if !invB t then none else
       let m := textRichMeasure cw t
+      let cfg := mkCfg f { consoleWidth := 80 } []
+      let w := decNat width
+      let nPar := (splitOnP (· == '\n') t.plain []).length
+      let wrapped := match textLines cfg t {} w with
+        | .ok ls => if ls.length == nPar then "0" else "1"
+        | .error _ => "E"
+      pure s!"{m.minimum},{m.maximum},{wrapped}"
+    -- with the code-variant flag of finding `text-measure-splitlines` in front: 1 = `splitlines()` (as found), 0 = `split("\n")` (fixed)
+    | [ms, flags, text, width] => orUnmodelled do
+      let f ← decFlags flags
+      let t ← C02.decText? text
+      if !invB t then none else
+      if ms != "0" && ms != "1" then none else
+      let m := textRichMeasureV (ms == "1") cw t
       let cfg := mkCfg f { consoleWidth := 80 } []
       let w := decNat width
       let nPar := (splitOnP (· == '\n') t.plain []).length
